@@ -61,7 +61,7 @@ def trace {σ ω : Type} (step : σ → ω → σ × Res) (sh : σ → String) :
 
 def reply (l : List String) : String := if l.isEmpty then "-" else ";".intercalate l
 
-/-- `cl EXT OPS` | `lf EXT OPS` | `repo EXT OPS` | `branch EXT SOPS`
+/-- `cl EXT OPS` | `lf EXT OPS` | `repo EXT OPS` | `branch EXT SOPS` | `branchG EXT SOPS`
 (EXT `T`/`F`: a lock with the known nonce pre-exists on disk; OPS comma list of
 `r w wA wB u`, SOPS the same prefixed with `b` (branch) or `p` (repository)) -/
 def handle : List String → String
@@ -80,6 +80,10 @@ def handle : List String → String
   | ["branch", e, ops] =>
     match parseBool e, (splitList ops).mapM parseSOp with
     | some e, some ops => reply (trace Branch.step showBranch (Branch.init e) ops)
+    | _, _ => "bad-op"
+  | ["branchG", e, ops] =>
+    match parseBool e, (splitList ops).mapM parseSOp with
+    | some e, some ops => reply (trace Branch.stepG showBranch (Branch.init e) ops)
     | _, _ => "bad-op"
   | _ => "bad-op"
 
